@@ -730,12 +730,14 @@ func (o *baseObject) _defineOwnProperty(name unistring.String, existingValue Val
 		existing.getterFunc = propGetter(o.val, descr.Getter, o.val.runtime)
 		existing.value = nil
 		existing.accessor = true
+		existing.writable = false
 	}
 
 	if descr.Setter != nil {
 		existing.setterFunc = propSetter(o.val, descr.Setter, o.val.runtime)
 		existing.value = nil
 		existing.accessor = true
+		existing.writable = false
 	}
 
 	if !existing.accessor && existing.value == nil {
